@@ -75,7 +75,7 @@ def DataFrame_split (truth : Term → Bool) : Out :=
   let attr1_1' : Term := (Term.app "np.arange" [(Term.app ".nrow" [data'])]);
   let eff1 : Term := (Term.app "setattr" [data', (Term.sym "_sorted_index_"), attr1_1']);
   let stat' : Term := (Term.app ".unique" [data', (Term.app "*" [(Term.sym "by")])]);
-  Out.ret [eff0, eff1] (Term.app "np.split" [attr0_1', (Term.app "getitem" [(Term.app "._sorted_index_" [stat']), (Term.slice (some (1 : Int)) none)])])
+  Out.ret [eff0, eff1] (Term.app "np.split" [(Term.app "._index_" [data']), (Term.app "getitem" [(Term.app "._sorted_index_" [stat']), (Term.slice (some (1 : Int)) none)])])
 
 /-- the decorators of dataiter/data_frame.py: DataFrame.split, outermost first -/
 def DataFrame_split_decorators : List String := []
